@@ -1346,10 +1346,26 @@ class FunctionBody:
         c, a, b = n['inner']
         ce = self.expr(c)
         self.no_hoist += 1
-        ae = self.expr(a)
-        be = self.expr(b)
-        self.no_hoist -= 1
-        return '(%s ? %s : %s)' % (ce, ae, be)
+        try:
+            ae = self.expr(a)
+            be = self.expr(b)
+            return '(%s ? %s : %s)' % (ce, ae, be)
+        except ExtractionBreak as e:
+            if 'hoisting is not modelled' not in str(e) or self.pre is None or self.no_hoist > 1:
+                raise
+        finally:
+            self.no_hoist -= 1
+        # a branch needs temporaries / may throw: lower  c ? a : b  to an if statement assigning a fresh local
+        ct = self.ct(n)
+        if ct.kind == 'void':
+            brk('void conditional with side effects', n)
+        self.tr.tmp_counter += 1
+        name = 'wb_t%d' % self.tr.tmp_counter
+        pa, ae = self.with_pre(lambda: [self.expr(a)])
+        pb, be = self.with_pre(lambda: [self.expr(b)])
+        self.pre.append('%s %s; if (%s) { %s %s = %s; } else { %s %s = %s; }' % (
+            ct.c, name, ce, ' '.join(pa), name, ae[0], ' '.join(pb), name, be[0]))
+        return name
 
     def cast(self, n, inner):
         ck = n.get('castKind')
